@@ -351,12 +351,12 @@ class Scheduler:
             # only possible through an interrupt
             if c.kbi_at is not None and self.step >= c.kbi_at:
                 c.kbi_at = None
-                self.kbi_delivered.append((self.step, what))
+                self.kbi_delivered.append((self.step, what, policy_quiet(self.policy)))
                 raise KeyboardInterrupt()
             raise HarnessError('resumed with false predicate')
         if interruptible and c.kbi_at is not None and self.step >= c.kbi_at:
             c.kbi_at = None
-            self.kbi_delivered.append((self.step, what))
+            self.kbi_delivered.append((self.step, what, policy_quiet(self.policy)))
             raise KeyboardInterrupt()
 
     def yield_(self, what='yield'):
